@@ -123,17 +123,19 @@ static bool check_equals_hull(const std::string& op, int n, const Sys& RC, const
 }
 
 // ---------- integer points in a window (C17 / contains_integer_point) ----------
-// returns false if the set is unbounded or the window is too large
-static bool int_points(int n, const Sys& S, std::vector<Vec>& pts, long cap = 4000) {
+// returns false if the set is unbounded or the window is too large.
+// den[i] (default 1) = denominator of the lattice on dimension i: points k/den[i].
+static bool int_points(int n, const Sys& S, std::vector<Vec>& pts, long cap = 4000, const std::vector<int>* den = 0) {
   pts.clear();
   if (!ref::feasible(n, S)) return true;
   std::vector<mpz_class> lo(n), hi(n);
   double vol = 1;
   for (int i = 0; i < n; ++i) {
+    int dn = den ? (*den)[i] : 1;
     Vec a(n); a[i] = 1; ref::SupResult u = ref::supremum(n, S, a); a[i] = -1; ref::SupResult l = ref::supremum(n, S, a);
     if (!u.bounded || !l.bounded) return false;
-    mpz_fdiv_q(hi[i].get_mpz_t(), u.sup.get_num_mpz_t(), u.sup.get_den_mpz_t());
-    Q lv = -l.sup; mpz_cdiv_q(lo[i].get_mpz_t(), lv.get_num_mpz_t(), lv.get_den_mpz_t());
+    Q uv = u.sup * dn; mpz_fdiv_q(hi[i].get_mpz_t(), uv.get_num_mpz_t(), uv.get_den_mpz_t());
+    Q lv = -l.sup * dn; mpz_cdiv_q(lo[i].get_mpz_t(), lv.get_num_mpz_t(), lv.get_den_mpz_t());
     if (hi[i] < lo[i]) return true;
     vol *= (mpz_class(hi[i] - lo[i] + 1)).get_d();
     if (vol > cap) return false;
@@ -141,7 +143,7 @@ static bool int_points(int n, const Sys& S, std::vector<Vec>& pts, long cap = 40
   Vec x(n); std::vector<mpz_class> cur = lo;
   if (n == 0) { pts.push_back(x); return true; }
   for (;;) {
-    for (int i = 0; i < n; ++i) x[i] = cur[i];
+    for (int i = 0; i < n; ++i) { x[i] = Q(cur[i], den ? (*den)[i] : 1); x[i].canonicalize(); }
     if (ref::sat(S, x)) pts.push_back(x);
     int i = 0; while (i < n) { if (cur[i] < hi[i]) { ++cur[i]; break; } cur[i] = lo[i]; ++i; }
     if (i == n) break;
@@ -711,13 +713,17 @@ static void integer_ops(const Polyhedron& A, int n, const Sys& SA, const std::st
   }
   {
     Variables_Set vs; bool all = coin(); if (!all) { for (int i = 0; i < n; ++i) if (coin()) vs.insert(Variable(i)); }
+    if (!all) { // points integral on the designated dimensions only: the others range over thirds / halves
+      std::vector<int> den(n, 1); int od = coin() ? 2 : 3; for (int i = 0; i < n; ++i) if (vs.find(i) == vs.end()) den[i] = od;
+      enumerated = int_points(n, SA, pts, 6000, &den);
+    }
     Complexity_Class cc = (Complexity_Class) rnd(0, 2);
     tr(pre + ".tmp.drop_some_non_integer_points(" + (all ? std::string("all") : str(vs)) + ")"); hx::count("op.drop_some_non_integer_points");
     if (all) Tm.drop_some_non_integer_points(cc); else Tm.drop_some_non_integer_points(vs, cc);
     Sys RC; Gens RG; if (!check_dd(Tm, "drop_non_integer", RC, RG)) return;
     checked();
     if (!sys_included(n, RC, SA)) { violation("C17.poly.drop_some_non_integer_points.not_subset", "result not contained in the argument"); return; }
-    if (enumerated) for (size_t i = 0; i < pts.size(); ++i) if (!ref::sat(RC, pts[i])) { violation("C17.poly.drop_some_non_integer_points.lost_integer_point", show(pts[i])); return; }
+    if (enumerated) for (size_t i = 0; i < pts.size(); ++i) if (!ref::sat(RC, pts[i])) { violation("C17.poly.drop_some_non_integer_points.lost_integer_point", "point " + show(pts[i]) + " (integral on the designated dimensions) dropped; result " + show(RC)); return; }
     // points integral only on the designated dimensions: sample from vertices is not possible in general; integral-everywhere points suffice for `all`
     hx::count("int_points_checked", pts.size());
     return;
